@@ -677,10 +677,14 @@ func verifGenConforming(rnd *verifutil.Rand, label, compr string) *verifLayer {
 }
 
 var verifCandKinds = []string{"root-entry-nlink", "toc-digest-span-zstd", "repeated-dir-attr-merge",
-	"dir-after-child-nlink", "chunk-digest-fallback", "dup-name", "getoffset-no-data"}
+	"dir-after-child-nlink", "chunk-digest-fallback"}
+
+// outside the property's domain (a path named twice is not a valid layer, GetOffset of an entry
+// without data is not container-visible): differences are recorded as evidence notes only
+var verifNoteKinds = []string{"dup-name", "getoffset-no-data"}
 
 var verifNonconfKinds = []string{"hardlink-missing", "hardlink-to-dir", "hardlink-forward", "chunk-first",
-	"file-under-file", "unknown-type", "chunks-unsorted", "two-bad-hardlinks"}
+	"file-under-file", "unknown-type", "chunks-unsorted", "two-bad-hardlinks", "hardlink-source-has-children"}
 
 func (g *verifGen) insertFront(e verifEnt) {
 	g.ents = append([]verifEnt{e}, g.ents...)
@@ -730,6 +734,9 @@ func verifGenVariant(rnd *verifutil.Rand, label, compr, kind string) *verifLayer
 	}
 	if isIn(kind, verifCandKinds) {
 		class = "cand"
+		cands = []string{kind}
+	} else if isIn(kind, verifNoteKinds) {
+		class = "note"
 		cands = []string{kind}
 	} else if kind != "" {
 		class = "nonconf"
@@ -848,6 +855,11 @@ func verifGenVariant(rnd *verifutil.Rand, label, compr, kind string) *verifLayer
 			i = len(g.ents) - 1
 		}
 		g.ents = append(g.ents, verifEnt{Name: verifClean(g.ents[i].Name) + "/below", Type: "symlink", LinkName: "y"})
+	case "hardlink-source-has-children":
+		// f3cca50: a non-directory that is a hardlink source is used as a parent
+		g.ents = append(g.ents, verifEnt{Name: "hsrc", Type: "symlink", LinkName: "x"},
+			verifEnt{Name: "hsrc/b", Type: "symlink", LinkName: "y"},
+			verifEnt{Name: "hsrc/b/c", Type: "hardlink", LinkName: "hsrc"})
 	case "unknown-type":
 		g.ents = append(g.ents, verifEnt{Name: "sock", Type: "socket", Mode: 0644}, verifEnt{Name: "notype", Type: ""})
 	case "chunks-unsorted":
@@ -1408,27 +1420,27 @@ func verifCandidateScenarios() []*verifLayer {
 		ls = append(ls, verifScenario("cand-no-chunk-digest", "cand", "gzip", ents, nil, verifStd, "chunk-digest-fallback"))
 	}
 	// same name twice (tar: the later entry replaces the earlier one)
-	ls = append(ls, verifScenario("cand-dup-file", "cand", "gzip", vCat(
+	ls = append(ls, verifScenario("note-dup-file", "note", "gzip", vCat(
 		vFile("f", "first", nil, vOwner(1, 1)),
 		vFile("f", "second!", []int{3}, vOwner(2, 2)),
 	), nil, verifStd, "dup-name"))
-	ls = append(ls, verifScenario("cand-file-then-dir", "cand", "gzip", vCat(
+	ls = append(ls, verifScenario("note-file-then-dir", "note", "gzip", vCat(
 		vFile("n", "first", nil),
 		vOne(vE("n/", "dir", vMode(0700))),
 		vFile("n/x", "x", nil),
 	), nil, verifStd, "dup-name"))
-	ls = append(ls, verifScenario("cand-dir-then-file", "cand", "gzip", vCat(
+	ls = append(ls, verifScenario("note-dir-then-file", "note", "gzip", vCat(
 		vOne(vE("n/", "dir", vMode(0700), vOwner(3, 3), vX("user.a", "1"))),
 		vFile("n", "now-a-file", nil),
 	), nil, verifStd, "dup-name"))
 	// offsets on entries that carry no data
 	{
 		ents := vCat(vFile("e", "", nil), vOne(vE("d/", "dir")), vFile("z", "zz", nil))
-		l := verifScenario("cand-offset-on-empty", "cand", "gzip", ents, nil, verifStd, "getoffset-no-data")
+		l := verifScenario("note-offset-on-empty", "note", "gzip", ents, nil, verifStd, "getoffset-no-data")
 		_ = l
 		ents[0].Offset = 77
 		ents[1].Offset = 88
-		l2 := verifAssembleKeep("cand-offset-on-empty", "cand", "gzip", ents, verifStd, "getoffset-no-data")
+		l2 := verifAssembleKeep("note-offset-on-empty", "note", "gzip", ents, verifStd, "getoffset-no-data")
 		ls = append(ls, l2)
 	}
 	return ls
@@ -1473,6 +1485,8 @@ func verifNonConformingScenarios() []*verifLayer {
 	ls = append(ls, mk("chunk-first", vCat(vOne(verifEnt{Name: "c", Type: "chunk", ChunkOffset: 0, ChunkSize: 1}), vFile("f", "x", nil))))
 	ls = append(ls, mk("chunk-after-dir", vCat(vOne(vE("d/", "dir")), vOne(verifEnt{Name: "d", Type: "chunk", ChunkOffset: 1, ChunkSize: 1}))))
 	ls = append(ls, mk("file-under-file", vCat(vFile("a", "x", nil), vFile("a/b", "y", nil))))
+	ls = append(ls, mk("hardlink-source-has-children", vCat(vFile("a", "x", nil), vFile("a/b", "y", nil), vOne(vE("a/b/c", "hardlink", vLink("a"))))))
+	ls = append(ls, mk("hardlink-source-gets-children-later", vCat(vFile("a", "x", nil), vOne(vE("l", "hardlink", vLink("a"))), vFile("a/b", "y", nil))))
 	ls = append(ls, mk("unknown-type", vCat(vOne(vE("u", "socket")), vOne(vE("v", "")))))
 	ls = append(ls, mk("root-is-file", vCat(vFile("./", "x", nil), vFile("f", "y", nil))))
 	ls = append(ls, mk("root-is-symlink", vCat(vOne(vE("/", "symlink", vLink("x"))), vFile("f", "y", nil))))
